@@ -91,6 +91,11 @@ class HarnessError(Exception):
     """Trouble inside this library (generator bug, spox internal not observable): never a verdict."""
 
 
+class PartialOp(Exception):
+    """The numpy evaluator was asked to evaluate a partial operator outside its domain (Gather index
+    out of range …): the dataflow has no value for this binding."""
+
+
 class ConstructorShapeMismatch(Exception):
     """A spox constructor handed a callback another number of formals, or returned another number of
     outputs, than the operator has — the program cannot be written as described."""
